@@ -136,6 +136,7 @@ def cases(E):
     cs += assign_frame_cases(E)
     cs += scope_creation_cases(E)
     cs += chain_cases(E)
+    cs += c02.value_node_cases(E)  # an operand names a label by EXPRESSION: the forward label of its own scope wins at emission over what the early width guess saw
     # a macro argument that mentions a name is resolved in the scope of the CALL, also after sibling scopes that define the same name privately
     from vf.props import C09 as c09
     cs += [c for c in c09.own_cases(E)]
@@ -172,8 +173,23 @@ def shape_chain(depth, kinds):
     return sh
 
 
+def shape_qualified(cls, depth):
+    def sh(B):
+        res = S.resolver(B)
+        v, q = B.int("plain"), B.int("qualified")
+        top = S.root_symbols(B, res, {"n": v, "s.n": q})
+        cur = top
+        for i in range(depth):
+            cur = S.scope(B, res, cur, cls="a816.symbols." + cls, **({"name": "s"} if cls == "NamedScope" else {}))
+            B.I.hmut(B.st, B.I.hget(B.st, res).fields["scopes"]).items.append(cur)
+        return {"inner": cur, "plain_value": v, "qualified_value": q}
+    return sh
+
+
 def chain_cases(E):
-    return [Case("vf.contracts.c_scopes.value_for_chain_contract", f"defined {d} scopes further out, empty {'/'.join(k)} scopes in between", shape_chain(d, k),
+    q = [Case("vf.contracts.c_scopes.qualified_lookup_contract", f"`s.n` and `n` read from {d} nested {cls} (named `s`: a re-opened / nested scope of the same name)", shape_qualified(cls, d),
+              target=[Y + "Scope.value_for", Y + "Scope.__getitem__", Y + "NamedScope.value_for"]) for cls, d in (("NamedScope", 1), ("NamedScope", 2), ("Scope", 1), ("InternalScope", 1))]
+    return q + [Case("vf.contracts.c_scopes.value_for_chain_contract", f"defined {d} scopes further out, empty {'/'.join(k)} scopes in between", shape_chain(d, k),
                  target=[Y + "Scope.value_for", Y + "Scope.__getitem__"]) for d, k in ((1, ("Scope",)), (2, ("Scope", "InternalScope")), (3, ("InternalScope", "Scope", "NamedScope")))]
 
 
